@@ -358,6 +358,14 @@ def matrix_rules(ctx, rule):
         else:
             ctx.fail(rule, key, d.where(), "a matrix access in distance() is not dominated by prepare()", kind="S",
                      detail={"witness": "stale borders / out-of-range rows for words longer than the last prepared size"})
+        # ... and lies on every path to a return: the matrix the caller reads afterwards (prefix distances) is this call's
+        key = "prepare-on-every-path"
+        if preps and dcfg.every_path_passes(0, preps):
+            ctx.ok(rule, key, where(d, preps[0]), "distance() prepares the matrix on every path", kind="S")
+        else:
+            ctx.fail(rule, key, d.where(), "distance() can return without preparing the matrix: the prefix distances the matcher reads "
+                     "afterwards are those of an earlier comparison", kind="S",
+                     detail={"witness": "distance('', 'ab') after distance('xyz', 'uvw'): the matrix still holds the previous borders"})
         # arguments of prepare are the two cost vectors of this call
         if preps:
             t = d.blocks[preps[0]]["term"]
